@@ -46,6 +46,7 @@ impl<T: ?Sized> Mutex<T> {
                     return Err(PoisonError::new(MutexGuard { g: Some(p.into_inner()), res }));
                 }
                 Err(TryLockError::WouldBlock) => {
+                    k.note_lock_wait(me);
                     if k.block_on(me, res, None, || format!("mutex#{res}.wait")) == Wake::Aborted {
                         // teardown while unwinding: fall back to the real lock
                         return match self.inner.lock() {
